@@ -116,6 +116,11 @@ class AcctGen(object):
             op["with_cash"] = rng.choice([0.1, 1.0, -0.5])
         if rng.random() < pf.get("p_again", 0.0):
             op["again"] = True
+        if rng.random() < pf.get("p_relative", 0.08) and not exact:
+            # the allocation is a *change* from the current one (Rebalancing(absolute=False)); small steps
+            op["absolute"] = False
+            op["targets"] = {k: (v * 0.2 if measure == "weight" else v * 0.3) for k, v in targets.items()}
+            op.pop("again", None)
         return op
 
 
